@@ -44,11 +44,16 @@ def programs_c01(tier):
 def programs_c04(tier):
     out = []
     n = 5
-    fails = [["task", 0], ["task", 2], ["task", n - 1], ["iter", 0], ["iter", 3]]
+    fails = [["task", 0], ["task", 2], ["task", n - 1], ["iter", 0], ["iter", 3], ["base", 1]]
     njs = (2, 3) if tier == "quick" else (2, 3, 4)
     for nj, bs, pre, ra, fail in itertools.product(
             njs, (1, 2, "auto"), ("all", "2*n_jobs", 1), ("list", "generator", "generator_unordered"), fails):
         out.append(dict(n_jobs=nj, batch_size=bs, pre_dispatch=pre, return_as=ra, n=n, dur="flat", fail=fail, reuse=True))
+    # the sequential path (n_jobs=1) and progress reporting (verbose): a failure must surface whatever is printed
+    for nj, verbose, bs, ra, fail in itertools.product((1, 2), (0, 1, 11), (1, 2), ("list", "generator"), fails):
+        if nj == 2 and verbose == 0:
+            continue
+        out.append(dict(n_jobs=nj, batch_size=bs, pre_dispatch="2*n_jobs", return_as=ra, n=n, dur="flat", fail=fail, reuse=True, verbose=verbose))
     # inside a with block, the other tasks of the failing call still running (they do not complete before the
     # next call is over): the next call must not be starved by them
     for managed, bs, pre, ra, fail in itertools.product((True, False), (1,) if tier == "quick" else (1, 2),
@@ -73,11 +78,12 @@ def _run_program(backend, cfg, d, run_id, rec_sink):
                 raise IterBoom(i)
             consumed.append(i)
             sleep = (n - i) * 4 if dur == "dec" else 0
-            failing = bool(fail and fail[0] == "task" and fail[1] == i)
-            yield joblib.delayed(work)(d, run, i, sleep, failing, gate if dur == "block" and not failing else None, GATE_WAIT[backend])
+            failing = bool(fail and fail[0] in ("task", "base") and fail[1] == i)
+            yield joblib.delayed(work)(d, run, i, sleep, ("base" if fail[0] == "base" else True) if failing else False,
+                                       gate if dur == "block" and not failing else None, GATE_WAIT[backend])
 
     p = joblib.Parallel(n_jobs=cfg["n_jobs"], backend=backend, batch_size=cfg["batch_size"],
-                        pre_dispatch=cfg["pre_dispatch"], return_as=cfg["return_as"])
+                        pre_dispatch=cfg["pre_dispatch"], return_as=cfg["return_as"], verbose=cfg.get("verbose", 0))
     calls = [(cfg["n"], cfg["fail"], cfg["dur"])] + ([(3, None, "flat")] if cfg["reuse"] else [])
     obs = {"cfg": cfg, "calls": []}
     rec_sink["current"] = obs
@@ -125,6 +131,8 @@ def session_programs(arg, out_path):
     import warnings
     warnings.simplefilter("ignore")
     backend = arg["backend"]
+    # progress messages of verbose programs go nowhere
+    sys.stdout = sys.stderr = open(os.devnull, "w")
     d = core.scratch_dir("realpar-%d" % os.getpid())
     result = {"backend": backend, "obs": [], "pids": [os.getpid()]}
     sink = {}
@@ -193,7 +201,7 @@ def judge(obs, backend):
             if rec["consumed"] != list(range(n)):
                 bad.append(("real|input-consumption|%s" % where, "%s consumed inputs %r instead of 0..%d in order" % (tag, rec["consumed"], n - 1)))
         else:
-            exp = ["Boom", fail[1]] if fail[0] == "task" else ["IterBoom", fail[1]]
+            exp = ["Boom", fail[1]] if fail[0] == "task" else ["FatalBoom", fail[1]] if fail[0] == "base" else ["IterBoom", fail[1]]
             if "exc" not in rec:
                 bad.append(("real|failure-swallowed|%s|%s" % (where, fail[0]),
                             "%r: the failure %r did not surface, the call returned %r" % (cfg, fail, got)))
@@ -244,6 +252,7 @@ def run_real(ctx, programs, prop, nchunks=5):
     for b in BACKENDS:
         # the multiprocessing backend rejects return_as != 'list' at construction (supports_return_generator is False)
         progs = [p for p in programs if b != "multiprocessing" or p["return_as"] == "list"]
+        progs = [p for p in progs if p["n_jobs"] != 1 or b == "threading"]     # n_jobs=1 never reaches a backend
         slow = [p for p in progs if p.get("dur") == "block"]
         progs = [p for p in progs if p.get("dur") != "block"]
         size = max(1, (len(progs) + nchunks - 1) // nchunks)
